@@ -2,6 +2,7 @@
    Proofs/Shard_proofs.v; the statements are pinned again in /verif/pins/C11.v. *)
 From SV Require Import Base.Prelude Model.Shard Proofs.Shard_proofs.
 From SV Require Import Model.ShardConnect Proofs.ShardConnect_proofs.
+From SV Require Import Model.ShardRange Proofs.ShardRange_proofs.
 From Coq Require Import Permutation String.
 Open Scope N_scope.
 
@@ -441,6 +442,65 @@ Example C11_ex_round4 :
   parse_shard_info (Some ["3"%string]) (Some ["8"%string]) (Some ["256"%string]) = Err ParseIntError.
 Proof. repeat split; vm_compute; try reflexivity; tauto. Qed.
 
+(* ---- Range constructor (wave 4 follow-up): ShardAwarePortRange::new, Model/ShardRange.v ----
+   The port functions above take a range [lo,hi]; the only way an application obtains one is this
+   constructor.  Documented contract: refused iff the range is empty (hi < lo) or starts below 1024. *)
+
+(* accepted <=> 1024 <= lo <= hi, and the accepted range is (lo, hi) unchanged *)
+Theorem C11_range_new_iff : forall lo hi r,
+  port_range_new lo hi = Some r <-> (1024 <= lo /\ lo <= hi /\ r = (lo, hi)).
+Proof. exact port_range_new_iff. Qed.
+
+Theorem C11_range_new_none_iff : forall lo hi,
+  port_range_new lo hi = None <-> (hi < lo \/ lo < 1024).
+Proof. exact port_range_new_none_iff. Qed.
+
+(* "nothing is produced only when no such port exists" THROUGH the constructor: for every allowed
+   range (1024 <= lo <= hi <= 65535), constructor followed by draw / iterator produces nothing (for
+   every index resp. pivot) iff no p in [lo,hi] has p mod n = s *)
+Theorem C11_range_new_nothing_iff : forall n s lo hi,
+  0 < n -> s < n -> 1024 <= lo -> lo <= hi -> hi <= u16_max ->
+  ((forall idx, draw_port_new n s lo hi idx = None) <-> (forall p, lo <= p <= hi -> p mod n <> s)) /\
+  (forall pivot, iter_ports_new n s lo hi pivot = [] <-> (forall p, lo <= p <= hi -> p mod n <> s)).
+Proof. exact range_new_nothing_iff. Qed.
+
+(* accepted range and the shard has a port in it: the range handed on is (lo, hi), every draw with an
+   index below the number of such ports yields one of them, and for every pivot the iterator is
+   non-empty, a duplicate-free permutation of the set *)
+Theorem C11_range_new_produces : forall n s lo hi a b,
+  0 < n -> s < n -> hi <= u16_max ->
+  port_range_new lo hi = Some (a, b) -> spec_ports n s lo hi <> [] ->
+  a = lo /\ b = hi /\
+  (forall idx, (idx < List.length (spec_ports n s lo hi))%nat ->
+     exists p, draw_port n s a b idx = Some p /\ lo <= p <= hi /\ p mod n = s) /\
+  (forall pivot, iter_ports n s a b pivot <> [] /\
+     Permutation (iter_ports n s a b pivot) (spec_ports n s lo hi) /\ NoDup (iter_ports n s a b pivot)).
+Proof. exact range_new_produces. Qed.
+
+(* a refused range produces nothing, whatever the oracle *)
+Theorem C11_range_new_refused : forall n s lo hi, (hi < lo \/ lo < 1024) ->
+  (forall idx, draw_port_new n s lo hi idx = None) /\ (forall pivot, iter_ports_new n s lo hi pivot = []).
+Proof. exact range_new_refused. Qed.
+
+(* non-vacuity: the boundary 1023 / 1024, lo = hi, hi < lo, the top of u16; an allowed range starting
+   at 1024 really produces (a constructor with an inclusive reserved range 0..=1024 would not) *)
+Example C11_ex_range_new :
+  port_range_new 1024 1024 = Some (1024, 1024) /\ port_range_new 1023 1024 = None /\
+  port_range_new 1023 1023 = None /\ port_range_new 1024 1023 = None /\
+  port_range_new 1025 1024 = None /\ port_range_new 1024 65535 = Some (1024, 65535) /\
+  port_range_new 0 65535 = None /\ port_range_new 65535 65535 = Some (65535, 65535) /\
+  port_range_new 65535 65534 = None /\ port_range_new 49152 65535 = Some (49152, 65535) /\
+  spec_ports 3 1 1024 1030 = [1024; 1027; 1030] /\
+  draw_port_new 3 1 1024 1030 0 = Some 1024 /\ draw_port_new 3 1 1024 1030 2 = Some 1030 /\
+  iter_ports_new 3 1 1024 1030 1 = [1027; 1030; 1024] /\
+  (* single-port range: shard 1 has the port, shard 0 has none *)
+  draw_port_new 3 1 1024 1024 0 = Some 1024 /\ iter_ports_new 3 0 1024 1024 0 = [] /\
+  spec_ports 3 0 1024 1024 = [] /\
+  (* refused ranges produce nothing although ports of the shard lie between the bounds *)
+  spec_ports 3 1 1023 1030 <> [] /\ draw_port_new 3 1 1023 1030 0 = None /\
+  iter_ports_new 3 1 1023 1030 0 = [] /\ draw_port_new 3 1 1030 1024 0 = None.
+Proof. repeat split; vm_compute; try reflexivity; discriminate. Qed.
+
 Print Assumptions C11_shard_spec.
 Print Assumptions C11_draw_some.
 Print Assumptions C11_prop_iter_ok_iff.
@@ -485,3 +545,8 @@ Print Assumptions C11_connect_some_pivot_all.
 Print Assumptions C11_source_port_spec.
 Print Assumptions C11_source_port_iter.
 Print Assumptions C11_parse_ok_iff.
+Print Assumptions C11_range_new_iff.
+Print Assumptions C11_range_new_none_iff.
+Print Assumptions C11_range_new_nothing_iff.
+Print Assumptions C11_range_new_produces.
+Print Assumptions C11_range_new_refused.
